@@ -1320,7 +1320,15 @@ func (p *PathConds) expandCompare(bo *ssa.BinOp, want bool) ([]conj, bool) {
 // isRangeTest: the atom is the continuation test of a walk over x (`i < len(x)`), not the
 // emptiness test `0 < len(x)` that `len(x) == 0` and `len(x) > 0` are normalised to.
 func isRangeTest(a string) bool {
-	return strings.Contains(a, " < builtin:len(") && !strings.HasPrefix(a, "(0 < builtin:len(")
+	i := strings.Index(a, " < builtin:len(")
+	if i < 1 || !strings.HasPrefix(a, "(") {
+		return false
+	}
+	// a constant on the left is a test of the list's size, not of a position in it
+	if _, err := strconv.Atoi(a[1:i]); err == nil {
+		return false
+	}
+	return true
 }
 
 var opaqueAtomRe = regexp.MustCompile(`^([a-z]+)\.([A-Za-z_][A-Za-z_0-9]*)\((.*)\)$`)
